@@ -22,6 +22,7 @@ import (
 	"fmt"
 	"go/ast"
 	"go/parser"
+	"go/printer"
 	"go/token"
 	"os"
 	"os/exec"
@@ -56,19 +57,34 @@ type Obs struct {
 	Secs       float64    `json:"secs"`
 }
 
+// Ref records how the generated file refers to the type of one trait column (the result type
+// of the trait accessor), next to what go/types says the type is.
+type Ref struct {
+	Trait    string `json:"trait"`
+	Kind     string `json:"basic_kind"` // go/types kind name for an unnamed basic type, else ""
+	PkgPath  string `json:"pkg_path"`   // package of a named type
+	PkgName  string `json:"pkg_name"`
+	TypeName string `json:"type_name"`
+	Observed string `json:"observed"`
+}
+
 // Case is the JSON form of one farm case.
 type Case struct {
-	ID       string          `json:"id"`
-	Tool     string          `json:"tool"`
-	Kind     string          `json:"kind"`
-	Label    string          `json:"label"`
-	Flags    map[string]bool `json:"flags"`
-	Parsable bool            `json:"parsable_some"`
-	Kinds    []string        `json:"trait_kinds"`
-	Shapes   []string        `json:"shapes"`
-	Generate string          `json:"go_generate"`
-	Spec     *Spec           `json:"spec"`
-	Obs      Obs             `json:"obs"`
+	ID       string            `json:"id"`
+	Tool     string            `json:"tool"`
+	Kind     string            `json:"kind"`
+	Label    string            `json:"label"`
+	Flags    map[string]bool   `json:"flags"`
+	Parsable bool              `json:"parsable_some"`
+	Kinds    []string          `json:"trait_kinds"`
+	Shapes   []string          `json:"shapes"`
+	Generate string            `json:"go_generate"`
+	Own      string            `json:"own_pkg"`
+	Imports  [][2]string       `json:"file_imports"` // path, alias of the definition file's imports
+	Refs     []Ref             `json:"type_refs"`    // how each trait type is referenced in the generated file
+	Spec     *Spec             `json:"spec"`
+	Files    map[string]string `json:"files"` // the definition files as written (for the reader of a replay)
+	Obs      Obs               `json:"obs"`
 }
 
 type pkgState struct {
@@ -162,7 +178,8 @@ func (p *pkgState) prepare(farm string) error {
 		return err
 	}
 	var files map[string]string
-	c := Case{ID: s.ID, Tool: s.Tool, Kind: s.Kind, Spec: s, Flags: map[string]bool{}, Kinds: []string{}, Shapes: []string{}}
+	c := Case{ID: s.ID, Tool: s.Tool, Kind: s.Kind, Spec: s, Flags: map[string]bool{}, Kinds: []string{}, Shapes: []string{},
+		Own: "farm/" + s.ID, Imports: [][2]string{}, Refs: []Ref{}}
 	switch s.Tool {
 	case "genum":
 		files = renderEnum(s.ID, s.Enum, s.GOpts)
@@ -193,6 +210,7 @@ func (p *pkgState) prepare(farm string) error {
 	default:
 		return fmt.Errorf("unknown tool %q", s.Tool)
 	}
+	c.Files = files
 	p.c = c
 	for n, body := range files {
 		if err := os.WriteFile(filepath.Join(p.dir, n), []byte(body), 0o644); err != nil {
@@ -211,6 +229,69 @@ func (p *pkgState) assertions() string {
 		return assertErr(s.ID, s.Err)
 	default:
 		return assertSort(s.ID, s.Sort)
+	}
+}
+
+// collectRefs reads the result types of the trait accessors out of the generated file.
+func (p *pkgState) collectRefs() {
+	s := p.spec
+	if s.Tool != "genum" || s.GOpts.DisableTraits || !p.c.Obs.File || p.c.Obs.Exit != 0 {
+		return
+	}
+	fset := token.NewFileSet()
+	f, err := parser.ParseFile(fset, p.genFile, nil, parser.SkipObjectResolution)
+	if err != nil {
+		return
+	}
+	results := map[string]string{}
+	for _, d := range f.Decls {
+		fd, ok := d.(*ast.FuncDecl)
+		if !ok || fd.Recv == nil || fd.Type.Results == nil || len(fd.Type.Results.List) != 1 {
+			continue
+		}
+		var b bytes.Buffer
+		if err := printer.Fprint(&b, fset, fd.Type.Results.List[0].Type); err == nil {
+			results[fd.Name.Name] = b.String()
+		}
+	}
+	if hasKind(s.Enum, "duration") {
+		p.c.Imports = append(p.c.Imports, [2]string{"time", "xtime"})
+	}
+	if hasKind(s.Enum, "reflect_kind") {
+		p.c.Imports = append(p.c.Imports, [2]string{"reflect", "reflect"})
+	}
+	sl := sortedLines(s.Enum)
+	if len(sl) == 0 {
+		return
+	}
+	for j := range sl[0].Cells {
+		if j >= len(s.Enum.Traits) || s.Enum.Traits[j].Name == "_" || s.Enum.Traits[j].Name == "" {
+			continue
+		}
+		tc := s.Enum.Traits[j]
+		obs, ok := results[traitName(tc)]
+		if !ok {
+			continue
+		}
+		r := Ref{Trait: traitName(tc), Kind: kinds[tc.Kind].basic, Observed: obs}
+		if r.Kind == "" {
+			r.PkgPath, r.PkgName = p.c.Own, s.ID
+			switch tc.Kind {
+			case "tstring":
+				r.TypeName = "Label"
+			case "named_int":
+				r.TypeName = "Level"
+			case "other_enum":
+				r.TypeName = "Other"
+			case "other_enum2":
+				r.TypeName = "Extra"
+			case "duration":
+				r.PkgPath, r.PkgName, r.TypeName = "time", "time", "Duration"
+			case "reflect_kind":
+				r.PkgPath, r.PkgName, r.TypeName = "reflect", "reflect", "Kind"
+			}
+		}
+		p.c.Refs = append(p.c.Refs, r)
 	}
 }
 
@@ -355,6 +436,15 @@ func galCase(c Case) string {
 	obs := map[string]string{"built": "ObsBuilt", "err": "ObsErr", "bad": "ObsBad"}[c.Obs.Outcome]
 	return "{| gc_tool := " + tool + "; gc_flags := " + gal.List(fl) + "; gc_parsable := " + gal.Bool(c.Parsable) +
 		"; gc_kinds := " + gal.ListOf(c.Kinds, gal.Str) + "; gc_shapes := " + gal.ListOf(c.Shapes, gal.Str) +
+		"; gc_own := " + gal.Str(c.Own) +
+		"; gc_imports := " + gal.ListOf(c.Imports, func(p [2]string) string { return gal.Pair(gal.Str(p[0]), gal.Str(p[1])) }) +
+		"; gc_refs := " + gal.ListOf(c.Refs, func(r Ref) string {
+		pkg := "None"
+		if r.Kind == "" {
+			pkg = "(Some " + gal.Pair(gal.Str(r.PkgPath), gal.Str(r.PkgName)) + ")"
+		}
+		return "(mk_tref " + gal.Str(r.Kind) + " " + pkg + " " + gal.Str(r.TypeName) + " " + gal.Str(r.Observed) + ")"
+	}) +
 		"; gc_obs := " + obs + " |}"
 }
 
@@ -536,6 +626,7 @@ func main() {
 		if o.Outcome == "built" {
 			o.GenLog = ""
 		}
+		p.collectRefs()
 		out.Case(galCase(p.c), p.c)
 	}
 	out.Close()
